@@ -20,6 +20,21 @@ unsafe impl Send for GuardBuf {}
 unsafe impl Sync for GuardBuf {}
 
 impl GuardBuf {
+    /// Miri has no mmap/mprotect: plain heap allocation, same layout (Miri itself then checks every
+    /// access against the allocation bounds).
+    #[cfg(miri)]
+    pub fn new(len: usize, end_aligned: bool, _shared: bool) -> GuardBuf {
+        let data_pages = ((len + PAGE - 1) / PAGE).max(1);
+        let map_len = (data_pages + 2) * PAGE;
+        unsafe {
+            let map = std::alloc::alloc(std::alloc::Layout::from_size_align(map_len, PAGE).unwrap());
+            std::ptr::write_bytes(map, 0xA5, map_len);
+            let data = if end_aligned { map.add(map_len - PAGE - len) } else { map.add(PAGE) };
+            GuardBuf { map, map_len, data, len }
+        }
+    }
+
+    #[cfg(not(miri))]
     pub fn new(len: usize, end_aligned: bool, shared: bool) -> GuardBuf {
         let data_pages = (len + PAGE - 1) / PAGE;
         let data_pages = data_pages.max(1);
@@ -115,7 +130,10 @@ impl GuardBuf {
 impl Drop for GuardBuf {
     fn drop(&mut self) {
         unsafe {
+            #[cfg(not(miri))]
             libc::munmap(self.map as *mut _, self.map_len);
+            #[cfg(miri)]
+            std::alloc::dealloc(self.map, std::alloc::Layout::from_size_align(self.map_len, PAGE).unwrap());
         }
     }
 }
@@ -127,6 +145,13 @@ pub struct Shared {
 }
 
 impl Shared {
+    #[cfg(miri)]
+    pub fn new(len: usize) -> Shared {
+        let p = unsafe { std::alloc::alloc_zeroed(std::alloc::Layout::from_size_align(len, 4096).unwrap()) };
+        Shared { ptr: p, len }
+    }
+
+    #[cfg(not(miri))]
     pub fn new(len: usize) -> Shared {
         unsafe {
             let p = libc::mmap(
@@ -156,7 +181,10 @@ impl Shared {
 impl Drop for Shared {
     fn drop(&mut self) {
         unsafe {
+            #[cfg(not(miri))]
             libc::munmap(self.ptr as *mut _, self.len);
+            #[cfg(miri)]
+            std::alloc::dealloc(self.ptr, std::alloc::Layout::from_size_align(self.len, 4096).unwrap());
         }
     }
 }
@@ -175,6 +203,14 @@ pub enum ChildEnd {
 
 /// Run `f` in a forked child. The child gets a CPU-time limit of `cpu_secs` (SIGXCPU when
 /// exceeded) and the parent a wall-clock watchdog of `wall_secs`.
+#[cfg(miri)]
+pub fn in_child<F: FnOnce()>(_cpu_secs: u64, _wall_secs: u64, f: F) -> ChildEnd {
+    // no fork under Miri: run inline (Miri reports UB itself and aborts the whole run)
+    let r = panic::catch_unwind(AssertUnwindSafe(f));
+    ChildEnd::Exit(if r.is_ok() { 0 } else { 101 })
+}
+
+#[cfg(not(miri))]
 pub fn in_child<F: FnOnce()>(cpu_secs: u64, wall_secs: u64, f: F) -> ChildEnd {
     unsafe {
         let pid = libc::fork();
@@ -238,6 +274,7 @@ pub fn signame(s: i32) -> &'static str {
         libc::SIGXCPU => "SIGXCPU",
         libc::SIGKILL => "SIGKILL",
         libc::SIGTRAP => "SIGTRAP",
+        1077 => "VALGRIND-ERROR",
         _ => "SIG?",
     }
 }
@@ -311,7 +348,7 @@ pub fn run_batch<F: Fn(usize, &mut Vec<u8>)>(n: usize, cpu_secs: u64, cpu_alone_
 /// Like `run_batch`; `on_death(i)` runs in the parent immediately after case `i` killed its child
 /// (before any later case runs), e.g. to inspect MAP_SHARED memory the dying case may have touched.
 pub fn run_batch_ex<F: Fn(usize, &mut Vec<u8>)>(n: usize, cpu_secs: u64, cpu_alone_secs: u64, f: F, on_death: &mut dyn FnMut(usize) -> Vec<u8>) -> Vec<CaseEnd> {
-    const AREA: usize = 16 << 20;
+    const AREA: usize = if cfg!(miri) { 1 << 18 } else { 16 << 20 };
     let mut ends: Vec<Option<CaseEnd>> = (0..n).map(|_| None).collect();
     let mut start = 0usize;
     let sh = Shared::new(AREA);
@@ -328,7 +365,12 @@ pub fn run_batch_ex<F: Fn(usize, &mut Vec<u8>)>(n: usize, cpu_secs: u64, cpu_alo
                 f(i, &mut out);
                 let off = sh.u64_at(2) as usize;
                 if off + out.len() + 16 > AREA {
-                    unsafe { libc::_exit(3) };
+                    #[cfg(not(miri))]
+                    unsafe {
+                        libc::_exit(3)
+                    };
+                    #[cfg(miri)]
+                    panic!("shared area full");
                 }
                 let s = sh.slice();
                 s[off..off + 8].copy_from_slice(&(out.len() as u64).to_le_bytes());
@@ -357,6 +399,25 @@ pub fn run_batch_ex<F: Fn(usize, &mut Vec<u8>)>(n: usize, cpu_secs: u64, cpu_alo
                     start += 1;
                 } else {
                     start = done;
+                }
+            }
+            ChildEnd::Exit(77) => {
+                // valgrind (--error-exitcode=77) reported errors somewhere in this child: find the
+                // cases by re-running each one in its own child
+                for i in start..done.max(start) {
+                    let e1 = in_child(cpu_alone_secs, 900, || {
+                        let mut out = Vec::new();
+                        f(i, &mut out);
+                    });
+                    if e1 == ChildEnd::Exit(77) {
+                        ends[i] = Some(CaseEnd::Died(1077, on_death(i)));
+                    }
+                }
+                if done < n {
+                    ends[done] = Some(CaseEnd::Died(1077, on_death(done)));
+                    start = done + 1;
+                } else {
+                    start = n;
                 }
             }
             ChildEnd::Exit(c) => {
